@@ -450,10 +450,8 @@ def resetCmd (H : HashFn) (w : World) (l : Loaded) (soft mixed hard : Bool) (arg
                   let w3 := { w2 with index := some es }
                   if !h then (w3, .ok none)
                   else
-                    match writeEntries H w3 es with
-                    | (true, _, w4) => (w4, .ok none)
-                    | (false, true, w4) => (w4, .err)
-                    | (false, false, w4) => (w4, .unsupported)
+                    let r := writeEntries H w3 es
+                    (r.2.2, if r.1 then .ok none else if r.2.1 then .err else .unsupported)
                 | _ => (w2, .unsupported)
         | _ => (w, .err)
     | _, _ => (w, .err)
